@@ -1009,6 +1009,16 @@ def chain_findings(old, gens, reply):
     aps = [parse_pat(p) for p in allacl]
     if "err" in reply:
         docs = [old] + [f for f, _ in gens]
+        # the document a generator is applied to is the result of the generators before it: the recorded array
+        # mechanisms are looked for on those intermediate documents too
+        from annet.annlib import jsontools
+        cur = copy.deepcopy(old)
+        for f, a in gens:
+            step = _call(lambda: jsontools.apply_json_fragment(copy.deepcopy(cur), copy.deepcopy(f), list(a)))
+            if "ok" not in step:
+                break
+            cur = dec(step["ok"])
+            docs.append(copy.deepcopy(cur))
         if reply["err"] == "JsonPointerException" and any(
                 _missing_below_array(x, f, a) for x in docs for f, a in gens):
             return [("frag.missing-parent-below-array", "missing object member below an array element")]
